@@ -43,7 +43,21 @@ def main():
         return res.finish()
     mod = importlib.import_module(GROUPS[prop])
     fn = getattr(mod, 'check_' + prop.lower())
-    return fn(res, tier, replay)
+    try:
+        return fn(res, tier, replay)
+    except Exception:
+        # the comparison machinery met an output it cannot interpret (it never does on a tree whose outputs have the shape the
+        # model predicts): the correspondence is broken; concrete violations found before the failure are still reported first
+        import traceback
+        tb = traceback.format_exc()
+        sys.stderr.write(tb)
+        res.violation({'broken': 'correspondence', 'name': 'check machinery of ' + prop,
+                       'note': 'the check stopped on an output of the implementation that it could not interpret', 'traceback': tb[-3000:]}, True)
+        res.coverage.setdefault('obligations', 0)
+        res.coverage.setdefault('discharged', 0)
+        res.coverage.setdefault('checker_cmd', 'lake build')
+        res.coverage.setdefault('trusted_base', vlib.TRUSTED)
+        return res.finish()
 
 
 if __name__ == '__main__':
